@@ -119,3 +119,16 @@ End RegExp.
 Definition idc_sample (c : Z) : bool :=
   ((97 <=? c) && (c <=? 122)) || ((65 <=? c) && (c <=? 90)) || ((48 <=? c) && (c <=? 57)) || (c =? 95) || (c =? 36) ||
   (c =? 233) || (c =? 8204) || (c =? 8205).
+
+(* RescanCloseBraceAsTemplateToken on a text that starts with '}' (token TCloseBrace, start 0, end 1):
+   codePoint = '`'; current = end; end -= 1; Next() - the same scan with the backtick as quote, the token
+   starting at the brace.  Some (kind 4 template tail / 5 template middle, end, len(text slice)) *)
+Definition run_jstemplate_tail (text : list Z) : res (option (Z * Z * Z)) :=
+  l <- step text (mkLx 1 96 0) ;;
+  r <- jstr_loop text (lex_fuel text) 96 l ;;
+  match r with
+  | None => Ok None
+  | Some (suffixLen, l) =>
+    t <- slice text 1 (rlen l - suffixLen) ;;
+    Ok (Some (if suffixLen =? 2 then 5 else 4, rlen l, len t))
+  end.
